@@ -565,8 +565,9 @@ def func_term(fd):
 
 
 def callees_term(fn):
-    """Coq `program` term of the callees of the fpy2 Function (and the function itself, last)."""
-    return lang.export_program(fn).coq()
+    """Coq `program` term of the callees of the fpy2 Function (the function itself is passed separately)."""
+    prog = lang.export_program(fn)
+    return Program(prog.funcs[:-1]).coq()
 
 
 def list_fold_positions(a, b):
@@ -707,9 +708,9 @@ def run(ck):
 
     flagsets = all_flag_sets()
     import os
-    nprog = int(os.environ.get('C07_NPROG', 1500 if thorough else 150))
+    nprog = int(os.environ.get('C07_NPROG', 1200 if thorough else 40))
     nargs = 8 if thorough else 6
-    per_prog_flags = len(flagsets) if thorough else 6
+    per_prog_flags = len(flagsets) if thorough else 5
 
     cases, case_index = [], {}      # dedup by term text
     step_refs = []                  # (prog idx, flag key, step no, pass, case no, node_in, node_out, exc)
